@@ -95,3 +95,16 @@ Theorem model_means_in_bbox : forall (X resp : list (list R)) k j lo hi,
   Forall (fun v => lo <= v <= hi) (col R_ops j X) ->
   lo <= nth j (nth k (means_of R_ops X resp (nk_of R_ops resp)) []) 0 <= hi.
 Proof. exact model_means_in_bbox_lemma. Qed.
+
+(** ... and the modelled covariance of a component with non-negative responsibilities includes the
+    regularisation, x^T cov x >= reg_covar |x|^2 for every x (no rounding, every dataset); with a
+    positive reg_covar it is therefore positive definite *)
+Theorem model_covariance_includes_reg : forall (X : list (list R)) rk mu nkk reg y,
+  length y = length mu -> 0 < nkk -> Forall (fun v => 0 <= v) rk ->
+  reg * Rdot y y <= Rquad (cov_of R_ops X rk mu nkk reg) y.
+Proof. exact model_cov_includes_reg_lemma. Qed.
+
+Theorem model_covariance_positive_definite : forall (X : list (list R)) rk mu nkk reg y,
+  length y = length mu -> 0 < nkk -> Forall (fun v => 0 <= v) rk -> 0 < reg ->
+  ~ Forall (fun v => v = 0) y -> 0 < Rquad (cov_of R_ops X rk mu nkk reg) y.
+Proof. exact model_cov_pd_lemma. Qed.
